@@ -203,7 +203,7 @@ def run(ck: Check):
                "n % k != 0; shape mismatches; foreign torch modules incl. MaxPool2d with dilation), each built with random gates; "
                "outcome (raises at construction | raises at compile | compiles) compared with `parse` evaluated in the Coq kernel; "
                "compiled ones compared with model.eval() on exhaustive (<= 2^10) or random inputs. Non-trivial: container with an "
-               "unsupported feature or more than one layer. Distinct = canonical JSON of (name, kinds).")
+               "unsupported feature or more than one layer. Distinct = canonical JSON of (name, kinds). Also: the model changed between constructor and compile (weights, container structure), a handle after get_c_code() / a refused compile() on a changed container, twelve ways of changing what a layer or the model computes without overriding forward, random operation sequences {container := m, get_c_code, compile, call} on one object against Model/Handle.hrun in the kernel.")
     ck.translate("Parse", t_parse.gen_parse)
     ck.translate("GateCode", t_gc.gen_gatecode)
     ck.prove("Props/C14", THEOREMS)
